@@ -57,20 +57,31 @@ private def compress (h : Array UInt32) (blk : ByteArray) (off : Nat) : Array UI
     hh := g; g := f; f := e; e := d + t1; d := c; c := b; b := a; a := t1 + t2
   return #[h[0]! + a, h[1]! + b, h[2]! + c, h[3]! + d, h[4]! + e, h[5]! + f, h[6]! + g, h[7]! + hh]
 
-def sha256BA (msg : ByteArray) : ByteArray := Id.run do
+/-- the eight state words, big-endian: 32 bytes by construction -/
+def digestBE8 (h : Array UInt32) : ByteArray := ByteArray.mk #[
+    (h[0]! >>> 24).toUInt8, (h[0]! >>> 16).toUInt8, (h[0]! >>> 8).toUInt8, h[0]!.toUInt8,
+    (h[1]! >>> 24).toUInt8, (h[1]! >>> 16).toUInt8, (h[1]! >>> 8).toUInt8, h[1]!.toUInt8,
+    (h[2]! >>> 24).toUInt8, (h[2]! >>> 16).toUInt8, (h[2]! >>> 8).toUInt8, h[2]!.toUInt8,
+    (h[3]! >>> 24).toUInt8, (h[3]! >>> 16).toUInt8, (h[3]! >>> 8).toUInt8, h[3]!.toUInt8,
+    (h[4]! >>> 24).toUInt8, (h[4]! >>> 16).toUInt8, (h[4]! >>> 8).toUInt8, h[4]!.toUInt8,
+    (h[5]! >>> 24).toUInt8, (h[5]! >>> 16).toUInt8, (h[5]! >>> 8).toUInt8, h[5]!.toUInt8,
+    (h[6]! >>> 24).toUInt8, (h[6]! >>> 16).toUInt8, (h[6]! >>> 8).toUInt8, h[6]!.toUInt8,
+    (h[7]! >>> 24).toUInt8, (h[7]! >>> 16).toUInt8, (h[7]! >>> 8).toUInt8, h[7]!.toUInt8]
+
+/-- the chaining value after all blocks of the padded message -/
+def sha256State (msg : ByteArray) : Array UInt32 := Id.run do
   let p := mdPadBE msg
   let mut h := h0
   for i in [0:p.size / 64] do
     h := compress h p (64 * i)
-  let mut out := ByteArray.emptyWithCapacity 32
-  for x in h do
-    out := out.push (x >>> 24).toUInt8 |>.push (x >>> 16).toUInt8 |>.push (x >>> 8).toUInt8 |>.push x.toUInt8
-  return out
+  return h
+
+def sha256BA (msg : ByteArray) : ByteArray := digestBE8 (sha256State msg)
 
 /-- SHA-256 on byte lists -/
-def sha256 (msg : Bytes) : Bytes := (sha256BA (ByteArray.mk msg.toArray)).toList
+def sha256 (msg : Bytes) : Bytes := (sha256BA (ByteArray.mk msg.toArray)).data.toList
 
 /-- Bitcoin's `Hash`: SHA-256 applied twice -/
-def hash256 (msg : Bytes) : Bytes := (sha256BA (sha256BA (ByteArray.mk msg.toArray))).toList
+def hash256 (msg : Bytes) : Bytes := (sha256BA (sha256BA (ByteArray.mk msg.toArray))).data.toList
 
 end BtcVerif.Crypto
